@@ -69,13 +69,33 @@ def ortho_first(model: Model):
         for n in ast.walk(s):
             if isinstance(n, ast.Return):
                 # must be inside `if d == 1`
-                ok = isinstance(s, ast.If) and norm(s.test).replace(" ", "") in ("d==1", "len(tt_cores)==1")
+                orders = order_names(f.node)
+                ok = isinstance(s, ast.If) and isinstance(s.test, ast.Compare) and len(s.test.ops) == 1 and isinstance(s.test.ops[0], (ast.Eq, ast.LtE)) \
+                    and is_order(s.test.left, orders) and isinstance(s.test.comparators[0], ast.Constant) and s.test.comparators[0].value == 1
                 if not ok:
                     bad.append(n)
     obs.append(Ob("ORTHO-FIRST", k3, VIOLATED if bad else OK, model.where(f, bad[0]) if bad else model.where(f),
                   "early returns before orthogonalisation", "a return bypasses orthogonalisation and truncation for d > 1"
                   if bad else "only the order-1 early return precedes the orthogonalisation"))
     return obs
+
+
+def order_names(fn) -> set:
+    """locals bound to a length (the order d), whatever they are called"""
+    out = set()
+    for n in ast.walk(fn):
+        if isinstance(n, ast.Assign) and len(n.targets) == 1 and isinstance(n.targets[0], ast.Name) and isinstance(n.value, ast.Call) \
+                and isinstance(n.value.func, ast.Name) and n.value.func.id == "len":
+            out.add(n.targets[0].id)
+    return out
+
+
+def is_order(e, orders) -> bool:
+    return (isinstance(e, ast.Name) and e.id in orders) or (isinstance(e, ast.Call) and isinstance(e.func, ast.Name) and e.func.id == "len")
+
+
+def is_order_minus_one(e, orders) -> bool:
+    return isinstance(e, ast.BinOp) and isinstance(e.op, ast.Sub) and is_order(e.left, orders) and isinstance(e.right, ast.Constant) and e.right.value == 1
 
 
 def _range_dir(it):
@@ -103,7 +123,7 @@ def sweep_dir(model: Model):
         iv = lp.target.id if isinstance(lp.target, ast.Name) else "?"
         carries = any(isinstance(n, ast.Subscript) and norm(n).replace(" ", "") == f"tt_cores[{iv}+1]" for n in ast.walk(lp))
         writes = {norm(n.targets[0]).replace(" ", "") for n in ast.walk(lp) if isinstance(n, ast.Assign) and isinstance(n.targets[0], ast.Subscript)}
-        ok = d == "up" and carries and f"cores_new[{iv}]" in writes
+        ok = d == "up" and carries and any(w.endswith(f"[{iv}]") for w in writes)
         obs.append(Ob("SWEEP-DIR", k, OK if ok else VIOLATED, model.where(lo, lp), norm(lp.iter),
                       "ascending sweep, R factor carried into core i+1" if ok else
                       f"lr_orthogonal's sweep is not ascending with the R factor carried into core i+1 (range {norm(lp.iter)}, writes {sorted(writes)})"))
@@ -117,8 +137,8 @@ def sweep_dir(model: Model):
         d = _range_dir(lp.iter)
         iv = lp.target.id if isinstance(lp.target, ast.Name) else "?"
         reads_prev = any(isinstance(n, ast.Subscript) and norm(n).replace(" ", "").endswith(f"[{iv}-1]") for n in ast.walk(lp))
-        args = [norm(a).replace(" ", "") for a in lp.iter.args] if isinstance(lp.iter, ast.Call) else []
-        ok = d == "down" and reads_prev and args[:2] == ["d-1", "0"]
+        a_ = lp.iter.args if isinstance(lp.iter, ast.Call) else []
+        ok = d == "down" and reads_prev and len(a_) >= 2 and is_order_minus_one(a_[0], order_names(rt.node)) and isinstance(a_[1], ast.Constant) and a_[1].value == 0
         obs.append(Ob("SWEEP-DIR", k, OK if ok else VIOLATED, model.where(rt, lp), norm(lp.iter),
                       "descending sweep over bonds d-1..1, carrying into core i-1" if ok else
                       f"truncation sweep is not range(d-1, 0, -1) carrying into core i-1 (got {norm(lp.iter)}): it runs in the same "
